@@ -4,7 +4,10 @@
    the model encoder writes the same bytes, and the model decoder reads them back to
    the same message consuming everything.
    The same constructor serves both stacks (the codecs are the same text); the
-   peersharing case carries the port bound of the stack (2^32 / 2^16). *)
+   peersharing case carries the port bound of the stack (2^32 / 2^16).
+   [CDec]: arbitrary (mutated / truncated) bytes through the model decoder against the
+   implementation's decoder: same class (ok / end of input / error), same bytes
+   consumed, same re-encoding of the decoded message. *)
 From PV Require Import Lib.Base Cbor.Item Cbor.Enc Cbor.Dec Cbor.Api C22.Model.
 Open Scope Z_scope.
 
@@ -145,6 +148,37 @@ Definition lf_eqb (a b : lf_msg) : bool :=
   | _, _ => false
   end.
 
+(* ---- decoder differential: arbitrary (mutated / truncated) input against the model
+        decoder. The implementation result is canonicalised by the harness to the
+        re-encoding of the decoded message and the number of bytes consumed. ---- *)
+Inductive dr : Type := ROk (reenc : list Z) (consumed : Z) | REoi | RErr.
+Definition to_dr {M} (enc : M -> list Z) (bs : list Z) (x : dres (M * list Z)) : dr :=
+  match x with DOk (m, r) => ROk (enc m) (len bs - len r) | DEoi => REoi | DErr => RErr end.
+Definition dr_eqb (a b : dr) : bool :=
+  match a, b with
+  | ROk x n, ROk y m => beqb x y && (n =? m)
+  | REoi, REoi | RErr, RErr => true
+  | _, _ => false
+  end.
+(* 0 keepalive, 1 blockfetch, 2/3/4 chainsync header/block/skipped, 5 txsubmission,
+   6/7 peersharing with u32/u16 ports, 8/9 handshake n2n/n2c, 10 localstate, 11 txmonitor,
+   12 leiosnotify, 13 leiosfetch *)
+Definition dec_run (k : Z) (bs : list Z) : dr :=
+  if k =? 0 then to_dr ka_enc bs (ka_dec bs)
+  else if k =? 1 then to_dr bf_enc bs (bf_dec bs)
+  else if k =? 2 then to_dr csh_enc bs (csh_dec bs)
+  else if k =? 3 then to_dr csb_enc bs (csb_dec bs)
+  else if k =? 4 then to_dr css_enc bs (css_dec bs)
+  else if k =? 5 then to_dr ts_enc bs (ts_dec bs)
+  else if k =? 6 then to_dr ps_enc bs (ps_dec u32b bs)
+  else if k =? 7 then to_dr ps_enc bs (ps_dec u16b bs)
+  else if k =? 8 then to_dr hsn_enc bs (hsn_dec bs)
+  else if k =? 9 then to_dr hsc_enc bs (hsc_dec bs)
+  else if k =? 10 then to_dr ls_enc bs (ls_dec bs)
+  else if k =? 11 then to_dr tm_enc bs (tm_dec bs)
+  else if k =? 12 then to_dr ln_enc bs (ln_dec bs)
+  else to_dr lf_enc bs (lf_dec bs).
+
 (* ---- cases ---- *)
 Inductive case : Type :=
 | CKa (m : ka_msg) (bs : list Z)
@@ -160,7 +194,8 @@ Inductive case : Type :=
 | CLtx (m : ltx_msg) (bs : list Z)
 | CTm (m : tm_msg) (bs : list Z)
 | CLn (m : ln_msg) (bs : list Z)
-| CLf (m : lf_msg) (bs : list Z).
+| CLf (m : lf_msg) (bs : list Z)
+| CDec (k : Z) (bs : list Z) (res : dr).
 
 Section Chk.
   Context {M : Type} (wf : M -> bool) (enc : M -> list Z) (dec : list Z -> dres (M * list Z))
@@ -189,23 +224,26 @@ Definition case_ok (c : case) : bool :=
   | CTm m bs => chk tm_wf tm_enc tm_dec tm_eqb m bs
   | CLn m bs => chk ln_wf ln_enc ln_dec ln_eqb m bs
   | CLf m bs => chk lf_wf lf_enc lf_dec lf_eqb m bs
+  | CDec k bs res => dr_eqb (dec_run k bs) res
   end.
 
-Definition case_out (c : case) : list Z * bool :=
+Definition case_out (c : case) : list Z * bool * option dr :=
+  let o (x : list Z * bool) := (x, @None dr) in
   match c with
-  | CKa m bs => out ka_enc ka_dec ka_eqb m bs
-  | CBf m bs => out bf_enc bf_dec bf_eqb m bs
-  | CCsH m (Some bs) => out csh_enc csh_dec (cs_eqb header_eqb) m bs
-  | CCsH m None => (csh_enc m, csh_enc_err m)
-  | CCsB m bs => out csb_enc csb_dec (cs_eqb beqb) m bs
-  | CCsS m bs => out css_enc css_dec (cs_eqb (fun _ _ => true)) m bs
-  | CTs m bs => out ts_enc ts_dec ts_eqb m bs
-  | CPs pb m bs => out ps_enc (ps_dec pb) ps_eqb m bs
-  | CHsN m bs => out hsn_enc hsn_dec (hs_eqb n2n_eqb) m bs
-  | CHsC m bs => out hsc_enc hsc_dec (hs_eqb n2c_eqb) m bs
-  | CLs m bs => out ls_enc ls_dec ls_eqb m bs
-  | CLtx m bs => out ltx_enc ltx_dec ltx_eqb m bs
-  | CTm m bs => out tm_enc tm_dec tm_eqb m bs
-  | CLn m bs => out ln_enc ln_dec ln_eqb m bs
-  | CLf m bs => out lf_enc lf_dec lf_eqb m bs
+  | CKa m bs => o (out ka_enc ka_dec ka_eqb m bs)
+  | CBf m bs => o (out bf_enc bf_dec bf_eqb m bs)
+  | CCsH m (Some bs) => o (out csh_enc csh_dec (cs_eqb header_eqb) m bs)
+  | CCsH m None => o (csh_enc m, csh_enc_err m)
+  | CCsB m bs => o (out csb_enc csb_dec (cs_eqb beqb) m bs)
+  | CCsS m bs => o (out css_enc css_dec (cs_eqb (fun _ _ => true)) m bs)
+  | CTs m bs => o (out ts_enc ts_dec ts_eqb m bs)
+  | CPs pb m bs => o (out ps_enc (ps_dec pb) ps_eqb m bs)
+  | CHsN m bs => o (out hsn_enc hsn_dec (hs_eqb n2n_eqb) m bs)
+  | CHsC m bs => o (out hsc_enc hsc_dec (hs_eqb n2c_eqb) m bs)
+  | CLs m bs => o (out ls_enc ls_dec ls_eqb m bs)
+  | CLtx m bs => o (out ltx_enc ltx_dec ltx_eqb m bs)
+  | CTm m bs => o (out tm_enc tm_dec tm_eqb m bs)
+  | CLn m bs => o (out ln_enc ln_dec ln_eqb m bs)
+  | CLf m bs => o (out lf_enc lf_dec lf_eqb m bs)
+  | CDec k bs _ => (([], true), Some (dec_run k bs))
   end.
